@@ -33,6 +33,12 @@ func OpenLocalStore(workdir string, fs vfs.FS) (*LocalStore, error) {
 		return nil, fmt.Errorf("pd/storage: workdir is required")
 	}
 	fs = vfs.Ensure(fs)
+	// A record that was being appended when the process died must not keep the store from
+	// opening: cut such a torn tail first, as the engine does before it opens its manifest.
+	// A directory without a manifest yet is a new store.
+	if err := manifest.Verify(workdir, fs); err != nil && !errors.Is(err, os.ErrNotExist) {
+		return nil, err
+	}
 	mgr, err := manifest.Open(workdir, fs)
 	if err != nil {
 		return nil, err
